@@ -43,10 +43,14 @@ ob("hdfimport_process_flags", ["C19"], entry="h_process", enforce=None, mode="bo
 # ----------------------------------------------------------------------------- hdiff driver glue (array_diff stubbed by a reference count)
 DR = dict(unit="hdiff_drv_u.c", mode="bounded", enforce=None, objbits=10,
           trusted=["array_diff: reference body (exact int8 count / harness-chosen per-slab counts) + log; its real contract: hdiff_array_u.c, hdiff_float_u.c",
-                   "match_table_init/add/free (hdiff_mattbl.c): model with a fixed 4-entry table; SD*/GR* readers: bodies delivering two ghost datasets; printf: no effect; strcmp/strcpy: exact models for names of <= 1 character"])
+                   "match_table_init/add/free (hdiff_mattbl.c): model with a fixed 4-entry table; qsort: exact model for <= 2 records; SD*/GR* readers: bodies delivering two ghost datasets; printf: no effect; strcmp/strcpy: exact models for names of <= 1 character"])
 ob("hdiff_sds_slabs", ["C19"], entry="h_sds_slabs", file="mfhdf/hdiff/hdiff_sds.c", unwind=6, cex_unwind=6,
    bound="int8 SDS of 2..3 rows x 1 MiB (hyperslab path, one slab per row), no fill value, no attributes", **DR)
 ob("hdiff_gr_comps", ["C19"], entry="h_gr_comps", file="mfhdf/hdiff/hdiff_gr.c", unwind=14, cex_unwind=14,
    bound="int8 images of 1..2 x 1..2 pixels with 1..3 components", **DR)
-ob("hdiff_match_only", ["C19"], entry="h_match_only", file="mfhdf/hdiff/hdiff.c", unwind=6, cex_unwind=6, tier="thorough", timeout=900,  # ~4 min
-   bound="at most 2 Vdata objects per file, names of 1 character", **DR)
+# match(): one pair of object lists per obligation (constant names; symbolic names hit a cbmc field-sensitivity defect, see the unit)
+_MO = ["", "a", "b", "c", "ab", "ba", "ac", "ca", "bc", "cb"]
+for _a, _b in ((4, 4), (4, 5), (5, 4), (8, 4), (9, 5), (7, 9), (1, 0), (0, 5), (4, 3), (6, 2), (1, 1), (0, 0), (5, 9)):
+    ob(f"hdiff_match_{_MO[_a] or '0'}_{_MO[_b] or '0'}", ["C19"], entry="h_match_only", file="mfhdf/hdiff/hdiff.c", unwind=6, cex_unwind=6,
+       defines=[f"MO_A={_a}", f"MO_B={_b}"],
+       bound=f"file 1 holds Vdatas {list(_MO[_a])}, file 2 holds {list(_MO[_b])} (in that order)", **DR)
